@@ -9,7 +9,7 @@ ID = "C08"
 LEAN_MODULES = ["LhasaV.Props.C08"]
 VH_FEATURES = ["reader", "header"]
 PER_OP_SECONDS = 30
-THEOREMS = {"header_no_fault": "full for the header parser: every input byte string", "header_consumes_within": "full"}
+THEOREMS = {'header_no_fault': 'full: every input byte string', 'header_consumes_within': 'full', 'leadin_no_fault': 'full', 'reader_no_uaf': 'full: every history', '(compiled binary, libc, tool)': 'observed by ASan/UBSan, not proved'}
 TRUSTED = ["hand-written models of the header parser, input stream, basic reader, reader and MacBinary pass-through "
            "(LhasaV.Model.{Header,Stream,Reader}); every raw-data / lead-in access is a checked access, header ownership is a ghost ledger",
            "clang ASan + UBSan as the observer of memory errors in the compiled library and tool; file-system layer of the library "
